@@ -736,6 +736,14 @@ def r5_escaped_once(ctx):
     if n_calls < 5:
         raise AnalysisError('error_html: escape_html_chars calls not found')
 
+def r10_shared_current_node(ctx):
+    """the report shows an error next to the segment it was reported for: an error on an envelope segment is attached to
+    the node the error handler calls current, which after every header and trailer must be the node of that very
+    envelope (an error on the GE shown under the last set instead is next to the wrong segment).  C05.R18 (shared)."""
+    from . import c05
+    for o in c05.r18_current_node_follows_the_envelope(ctx):
+        yield o
+
 
 RULES = [
     Rule('C19.R1', 'every interpolated piece of every HTML write is constant, integer, map text or escaped', r1_escaping, floor=15),
@@ -746,5 +754,6 @@ RULES = [
     Rule('C19.R7', 'node-level error filters: each code at exactly one of header / trailer line, where the reader raises it', r7_node_filters, floor=3),
     Rule('C19.R8', 'error iterator replayed over model trees: every loop node collected at header and trailer, second interchange included', r8_iterator_collects, floor=1),
     Rule('C19.R9', 'segment and element nodes hand every error to the report exactly once (inherited get_error_list decided per code)', r9_segment_and_element_lists, floor=2),
+    Rule('C19.R10', 'shared with C05.R18: after a header / trailer the current error node is that envelope node', r10_shared_current_node, floor=6),
     Rule('C19.R5', 'no text is escaped twice', r5_escaped_once, floor=5),
 ]
